@@ -39,7 +39,8 @@ ASSUMPTIONS = [
 ]
 ESSENTIAL_LABELS = {'all': ['problem:drop', 'problem:column',
                             'problem:periodic', 'bitwise_group', 'repeat',
-                            'openmp', 'cache', 'reorder', 'sort_gids']}
+                            'openmp', 'cache', 'reorder', 'sort_gids',
+                            'variable_h']}
 SHARD_TIMEOUT = {'quick': 1700, 'thorough': 10 * 3600}
 NNPS = ['ll', 'box', 'sh', 'esh', 'ci', 'sfc', 'tree', 'comp_tree',
         'strat_hash', 'strat_sfc']
@@ -66,7 +67,8 @@ def case_strategy(draw, problem, nfree, exclude=()):
     cfgs = [draw(config_strategy(True, reorder, exclude)) for _ in range(2)]
     cfgs += [draw(config_strategy(exclude=exclude)) for _ in range(nfree)]
     return dict(problem=problem,
-                phys=dict(n=draw(st.sampled_from([10, 12, 14])),
+                phys=dict(n=draw(st.sampled_from([10, 12, 14, 24])),
+                          varh=draw(st.booleans()),
                           dt=draw(st.sampled_from([1e-4, 2e-4])),
                           nsteps=draw(st.sampled_from([8, 12, 20])),
                           vals=[draw(st.integers(-8, 8)) / 16.0
@@ -153,6 +155,8 @@ def differs(cfg1, cfg2):
 def check(case, workdir):
     import numpy as np
     labels = ['problem:' + case['problem']]
+    if case['phys'].get('varh') and case['problem'] != 'periodic':
+        labels.append('variable_h')
     fails = []
     nontriv = []
     problem, phys = case['problem'], case['phys']
